@@ -580,7 +580,7 @@ type taintCtx struct {
 func (t *taintCtx) source(fi *core.FuncInfo, e ast.Expr, depth int) string {
 	info := fi.Pkg.TypesInfo
 	e = ast.Unparen(e)
-	if depth > 4 {
+	if depth > 12 {
 		return ""
 	}
 	switch v := e.(type) {
